@@ -81,9 +81,23 @@ func genScenario(t *rapid.T) scenario {
 	counter = 0
 	sc.Format = rapid.SampledFrom([]string{"json", "logfmt", "color"}).Draw(t, "format")
 	sc.Inherit = rapid.Bool().Draw(t, "inherit")
-	depth := rapid.IntRange(1, 4).Draw(t, "depth")
+	// the statement speaks of depth 1..4; fluent With... calls make deeper chains in real programs, so a few are drawn too
+	depth := rapid.SampledFrom([]int{1, 2, 3, 4, 1, 2, 3, 4, 1, 2, 3, 4, 6, 9, 13}).Draw(t, "depth")
+	big := -1
+	if rapid.IntRange(0, 29).Draw(t, "bigOwnList") == 0 {
+		big = rapid.IntRange(0, depth-1).Draw(t, "bigOwnListAt")
+	}
 	for i := 0; i < depth; i++ {
-		if rapid.IntRange(0, 2).Draw(t, "emptyOwn") == 0 {
+		if i == big {
+			// a logger with more own attributes than any scratch list is pre-sized for (unique keys, unsorted)
+			n := rapid.SampledFrom([]int{127, 128, 129, 130, 200, 300}).Draw(t, "bigOwnListLen")
+			var l []vlib.ExpAttr
+			for j := n - 1; j >= 0; j-- {
+				counter++
+				l = append(l, vlib.ExpAttr{Key: fmt.Sprintf("k%03d", (j*7)%n), Val: vlib.Value{Kind: "int", V: counter}})
+			}
+			sc.Chain = append(sc.Chain, l)
+		} else if rapid.IntRange(0, 2).Draw(t, "emptyOwn") == 0 {
 			sc.Chain = append(sc.Chain, nil)
 		} else {
 			sc.Chain = append(sc.Chain, genList(t, 1, 6, 0))
@@ -127,6 +141,9 @@ func genScenario(t *rapid.T) scenario {
 		sc.Call = genList(t, 13, 30, 0)
 	default:
 		sc.Call = genList(t, 31, 64, 0)
+	}
+	if big >= 0 && rapid.Bool().Draw(t, "bigOwnListAndNoArguments") {
+		sc.Call = nil
 	}
 	sc.Verb = rapid.IntRange(0, 3).Draw(t, "verb")
 	sc.Pkg = rapid.IntRange(0, 3).Draw(t, "viaPackageLevelFunction") == 0
